@@ -1170,12 +1170,13 @@ impl<T: RadixSortable> AdvancedRadixSort<T> {
 
     /// Insertion sort for small datasets
     fn insertion_sort(&mut self, data: &mut [T]) -> Result<()> {
+        // Compare the items themselves: extract_key() may cover only a prefix of an item
+        // (the first 8 bytes of a RadixString), so it cannot order items that share it
         for i in 1..data.len() {
             let key = data[i].clone();
-            let key_value = key.extract_key();
             let mut j = i;
             
-            while j > 0 && data[j - 1].extract_key() > key_value {
+            while j > 0 && data[j - 1] > key {
                 data[j] = data[j - 1].clone();
                 j -= 1;
             }
@@ -1191,7 +1192,8 @@ impl<T: RadixSortable> AdvancedRadixSort<T> {
     fn tim_sort(&mut self, data: &mut [T]) -> Result<()> {
         // This is a simplified version - a full Tim sort implementation would be much more complex
         // For now, we use the standard library's unstable_sort which is based on pattern-defeating quicksort
-        data.sort_unstable_by_key(|item| item.extract_key());
+        // Sort by Ord, not by extract_key(): the key may cover only a prefix of an item
+        data.sort_unstable();
         
         self.stats.basic_stats.used_parallel = false;
         self.stats.basic_stats.used_simd = false;
@@ -1276,6 +1278,14 @@ impl<T: RadixSortable> AdvancedRadixSort<T> {
 
             // Copy back to original array
             data.copy_from_slice(&buffer);
+        }
+
+        // The passes ordered the items by extract_key(), which may cover only a prefix of an
+        // item (the first 8 bytes of a RadixString): order each run of equal keys by Ord
+        for run in data.chunk_by_mut(|a, b| a.extract_key() == b.extract_key()) {
+            if run.len() > 1 {
+                run.sort_unstable();
+            }
         }
 
         self.stats.basic_stats.used_parallel = false;
